@@ -59,6 +59,46 @@ def run(ctx, rep):
                 rep.bad('D1.delegate', fn, c, f'evaluation points have kind {kinds}, not normal scores', construct=f'points of {mname}')
             else:
                 rep.undecided('D1.delegate', fn, c, f'kind of the evaluation points: {kinds}', construct=f'points of {mname}')
+        # the matrix handed as cov= is the fitted correlation itself on every path; a value that is the correlation plus / minus something
+        # (an evaluation-time ridge, a shrinkage) on some path is positive evidence of another matrix
+        cls_ = prog.cls(gauss.GM)
+
+        def cov_sources(owner, e, depth=0):
+            if depth > 5:
+                return {None}
+            while isinstance(e, ast.Call) and ((isinstance(e.func, ast.Attribute) and e.func.attr in ('to_numpy', 'copy', 'astype')) or call_name(e) in ('asarray', 'array')):
+                e = e.func.value if (isinstance(e.func, ast.Attribute) and e.func.attr in ('to_numpy', 'copy', 'astype')) else (e.args[0] if e.args else e)
+                if not isinstance(e, ast.Call):
+                    break
+            if isinstance(e, ast.Attribute) and e.attr == 'values':
+                e = e.value
+            if is_self_attr(e, owner.self_name, 'correlation'):
+                return {'CORR'}
+            if isinstance(e, ast.Name):
+                defs = [a.value for a in walk_no_nested(owner.node) if isinstance(a, ast.Assign) and any(isinstance(t, ast.Name) and t.id == e.id for t in a.targets)]
+                out = set()
+                for d_ in defs:
+                    out |= cov_sources(owner, d_, depth + 1)
+                return out or {None}
+            if isinstance(e, ast.Call) and is_self_attr(e.func, owner.self_name) and not e.args:
+                h = cls_.lookup(e.func.attr)
+                if h is not None:
+                    out = set()
+                    for r_ in [x for x in walk_no_nested(h.node) if isinstance(x, ast.Return) and x.value is not None]:
+                        out |= cov_sources(h, r_.value, depth + 1)
+                    return out or {None}
+            if isinstance(e, ast.BinOp) and isinstance(e.op, (ast.Add, ast.Sub, ast.Mult, ast.Div)):
+                l_, r_ = cov_sources(owner, e.left, depth + 1), cov_sources(owner, e.right, depth + 1)
+                if 'CORR' in l_ | r_ or 'MOD' in l_ | r_:
+                    return {'MOD'}
+            return {None}
+        for c in calls:
+            cv = kwarg(c, 'cov', 2)
+            if cv is not None and not is_self_attr(cv, fn.self_name, 'correlation'):
+                src = cov_sources(fn, cv)
+                if 'MOD' in src:
+                    rep.bad('D1.delegate', fn, c, f'on some path the matrix handed as cov= (`{short(cv, 40)}`) is the fitted correlation with something added or scaled: the value is '
+                            'not the multivariate normal density / CDF of the fitted correlation', construct=f'covariance of {mname}')
         for r in rets:
             rv = r.value
             if isinstance(rv, ast.Name):
